@@ -41,7 +41,7 @@ def cases(tier, seed):
     return out
 
 
-def _build(rng, sc):
+def _build(rng, sc, horizon=0.15):
     from cardillo import System
     from cardillo.discrete import RigidBody, PointMass, Frame
     from cardillo.constraints import Revolute, Spherical, FixedDistance
@@ -57,14 +57,21 @@ def _build(rng, sc):
         b1 = RigidBody(1.0, gen.random_spd(rng, 3, 0.02, 0.2), q0=np.concatenate([r1, P]), u0=np.zeros(6), name="b1")
         A_J = quat_to_mat(rng.normal(size=4))
         axis = int(rng.integers(3))
-        angle0 = float(rng.uniform(3, 5) * np.pi) if sc == "wound" else float(rng.uniform(-1, 1))
+        if sc == "wound":
+            # wound past one turn by the angle offset AND completing a full relative turn (the joint's turn counter advances)
+            # at 50-90 % of the run, in either direction; at most 1 rad per step so that the angle tracking can follow
+            spin = min(2 * np.pi / (horizon * float(rng.uniform(0.5, 0.9))), 1.0 / DT) * (1.0 if rng.random() < 0.5 else -1.0)
+            angle0 = float(rng.uniform(3, 5) * np.pi) * (1.0 if rng.random() < 0.5 else -1.0)
+            info["spin"] = spin
+        else:
+            angle0 = float(rng.uniform(-1, 1))
         j1 = Revolute(S.origin, b1, axis, angle0=angle0, r_OJ0=np.zeros(3), A_IJ0=A_J, name="j1")
         S.add(b1, j1, Force(GRAV * 1.0, b1, name="g1"))
         info.update({"axis": axis, "angle0": angle0})
         if sc == "wound":
             S.add(Spring(j1, float(rng.uniform(0.5, 3)), l_ref=0.0, compliance_form=False, name="torsion"))
             # initial spin so that the joint keeps turning
-            b1.u0 = np.concatenate([np.cross(A_J[:, axis] * 2.0, r1), quat_to_mat(P).T @ (A_J[:, axis] * 2.0)])
+            b1.u0 = np.concatenate([np.cross(A_J[:, axis] * spin, r1), quat_to_mat(P).T @ (A_J[:, axis] * spin)])
         else:
             P2 = rng.normal(size=4); P2 /= np.linalg.norm(P2)
             r2 = r1 + random_unit(rng) * 0.6
@@ -147,7 +154,7 @@ def run_case(spec, ctx):
     with gen.quiet(), warnings.catch_warnings():
         warnings.simplefilter("ignore")
         seed_build = int(rng.integers(1 << 30))
-        S, info = _build(np.random.default_rng(seed_build), sc)
+        S, info = _build(np.random.default_rng(seed_build), sc, horizon=N * DT)
         det.update(info)
         try:
             S.assemble(options=SolverOptions())
@@ -162,7 +169,7 @@ def run_case(spec, ctx):
             ctx.cls(f"scenario:{sc}:{solver}")
             exk = {**det, "k": k, "t_k": float(tF[k])}
             # fresh system, run to the split time
-            S1, _ = _build(np.random.default_rng(seed_build), sc)
+            S1, _ = _build(np.random.default_rng(seed_build), sc, horizon=N * DT)
             try:
                 S1.assemble(options=SolverOptions())
                 first = _solve(solver, S1, k * DT, opts)
